@@ -21,6 +21,7 @@ Utility functions and classes used throughout package.
 """
 
 import os
+import errno
 import ctypes
 import shutil
 import platform
@@ -259,6 +260,14 @@ def _filelist_total(path: os.PathLike) -> Tuple[int, List[str]]:
             size, paths = _filelist_total(item)
             total += size
             filelist.extend(paths)
+    elif path.is_symlink():
+        # a broken link is skipped; a link cycle is refused, because how deep
+        # the system follows it depends on how the path was spelled
+        try:
+            os.stat(path)
+        except OSError as err:
+            if err.errno == errno.ELOOP:
+                raise MissingPathError(str(path)) from err
     return total, sorted(filelist)
 
 
